@@ -61,6 +61,86 @@ def to_plain(tree):
     return docgen.plain(conv(tree))
 
 
+def inline_reference(entries):
+    """independent definition rules for ONE inline table: entries = [(path, value)], value = ('s', n) | ('t', entries).
+    A prefix segment may create a new (open, dotted-key) table or pass through one created that way in this same
+    inline table; it may not pass through a scalar or a closed inline-table value; the last segment must be new.
+    Returns (valid, plain string of the merged tree)."""
+    root = {}          # key -> ['open', dict] | ['closed', plain-string]
+    for path, val in entries:
+        cur = root
+        for seg in path[:-1]:
+            if seg not in cur:
+                cur[seg] = ["open", {}]
+            elif cur[seg][0] != "open":
+                return False, None
+            cur = cur[seg][1]
+        if path[-1] in cur:
+            return False, None
+        if val[0] == "s":
+            cur[path[-1]] = ["closed", f"i{val[1]}"]
+        else:
+            ok, pl = inline_reference(val[1])
+            if not ok:
+                return False, None
+            cur[path[-1]] = ["closed", pl]
+
+    def plain(d):
+        return "{" + ";".join(f"{k.encode().hex()}={(plain(v[1]) if v[0] == 'open' else v[1])}" for k, v in sorted(d.items(), key=lambda kv: kv[0].encode())) + "}"
+    return True, plain(root)
+
+
+def inline_render(rng, entries):
+    def key(p):
+        return ".".join(rng.choice([k, k, f'"{k}"', f"'{k}'"]) for k in p)
+    def val(v):
+        return str(v[1]) if v[0] == "s" else inline_render(rng, v[1])
+    return "{" + ", ".join(f"{key(p)} = {val(v)}" for p, v in entries) + "}" if entries else "{}"
+
+
+def inline_cases(ctx):
+    rng = ctx.rng
+    names = ["a", "b", "c"]
+    cases = []
+    shapes = {}
+    n = 6000 if ctx.tier == "quick" else 120000
+
+    def entry(d):
+        p = tuple(rng.choice(names[: rng.choice([2, 2, 3])]) for _ in range(rng.choice([1, 2, 2, 3, 3, 4])))
+        k = rng.random()
+        if k < 0.55 or d == 0:
+            v = ("s", rng.randrange(10))
+        elif k < 0.7:
+            v = ("t", [])
+        else:
+            v = ("t", [entry(d - 1) for _ in range(rng.choice([1, 1, 2]))])
+        return (p, v)
+    # systematic: closed table under a dotted prefix, then a key through it (lengths 2..4)
+    for pre in range(1, 4):
+        for ext in range(1, 3):
+            base = tuple(names[i % 2] for i in range(pre))
+            for inner in ([], [(("x",), ("s", 1))]):
+                es = [(base, ("t", inner)), (base + tuple(names[(pre + i) % 3] for i in range(ext)), ("s", 2))]
+                cases.append(es)
+                cases.append(list(reversed(es)))
+    for _ in range(n):
+        cases.append([entry(2) for _ in range(rng.choice([1, 2, 2, 3, 4]))])
+    out = []
+    for es in cases:
+        ok, pl = inline_reference(es)
+        wrap = rng.choice(["t = %s\n", "t = %s\n", "t = [%s]\n", "[h]\nt = %s\n", "t = { w = %s }\n"])
+        body = inline_render(rng, es)
+        text = wrap % body
+        if ok:
+            want = {"t = %s\n": "{74=%s}", "t = [%s]\n": "{74=[%s]}", "[h]\nt = %s\n": "{68={74=%s}}", "t = { w = %s }\n": "{74={77=%s}}"}[wrap] % pl
+        else:
+            want = None
+        key = ("valid" if ok else "invalid") + f":{max(len(p) for p, _ in es) if es else 0}seg"
+        shapes[key] = shapes.get(key, 0) + 1
+        out.append((text, ok, want))
+    return out, shapes
+
+
 def run(ctx):
     translate(ctx)
     mods = ["TomlVerif.Props.C09", "driver"]
@@ -129,6 +209,36 @@ def run(ctx):
             ndis += 1
             if first is None or len(ln) < len(first[0]):
                 first = (t, i[:200], m[:200])
+    # ---- the same rules INSIDE inline tables: entries with dotted keys of up to four segments; values scalar, `{}` or a
+    # closed inline table; an independent reference decides validity and the merged tree
+    inl_cases, inl_meta = inline_cases(ctx)
+    ilines = [h(t) for t, _, _ in inl_cases]
+    iimpl, imodel = run_pair(ctx, tvh, "doc", ilines)
+    inl_valid = inl_invalid = 0
+    for (t, ok, want), ln, i, m in zip(inl_cases, ilines, iimpl, imodel):
+        bad = None
+        iok = i.startswith("ok ")
+        if i.startswith("PANIC") or i == "CRASH" or i.startswith("mixed"):
+            bad = f"panic or entry points disagree: {i[:200]}"
+        elif ok:
+            inl_valid += 1
+            if not iok:
+                bad = "rejected, but every entry of the inline table is a definition TOML permits"
+            else:
+                got = i.split(" toml=")[1].split(" depth=")[0]
+                if got != want:
+                    bad = f"accepted but decoded {got}, the merged tree is {want}"
+        else:
+            inl_invalid += 1
+            if iok:
+                bad = "accepted, but an entry redefines a key or extends a closed inline table / a scalar"
+        if bad:
+            ctx.violation(f"`{t.strip()}`: {bad}".replace("\n", " | "), {"mode": "doc", "case": ln, "text": t, "impl": i[:1500], "model": m[:1500], "witness": ln})
+        if i != m:
+            ndis += 1
+            if first is None or len(ln) < len(first[0]):
+                first = (t, i[:200], m[:200])
+    ctx.cov.update({"inline_table_cases": len(inl_cases), "inline_valid": inl_valid, "inline_invalid": inl_invalid, "inline_shapes": inl_meta})
     ctx.oblige("correspondence doc: state-machine model = implementation (verdict, tree, implicit/dotted flags, positions) on every statement sequence",
                ndis == 0, f"{ndis} disagreements; shortest: {first}")
     if ctx.broken and not ctx.violations:
